@@ -32,10 +32,10 @@ type outSpec struct {
 type request struct {
 	Kind string `json:"kind"` // call | hist | probe
 	// call
-	In       []string `json:"in,omitempty"`
-	Variadic bool     `json:"variadic,omitempty"`
+	In       []string  `json:"in,omitempty"`
+	Variadic bool      `json:"variadic,omitempty"`
 	Out      []outSpec `json:"out,omitempty"`
-	Args     []m16.JV `json:"args,omitempty"`
+	Args     []m16.JV  `json:"args,omitempty"`
 	// hist
 	Cont  contSpec `json:"cont,omitempty"`
 	Steps []step   `json:"steps,omitempty"`
